@@ -209,12 +209,13 @@ func runC10(c *Ctx) {
 				}
 			}
 		}
+		invalScore := 0
 		for i := 0; i < m.entryT.NumMethods(); i++ {
 			f := P.SSA.FuncValue(m.entryT.Method(i))
 			if f == nil || f.Blocks == nil || len(f.Params) != 1 || m.linkF == nil {
 				continue
 			}
-			selfCmp, selfStore, hasLoop := false, false, false
+			selfCmp, selfStore, hasLoop, linkStore := false, false, false, false
 			for _, b := range f.Blocks {
 				for _, p := range b.Preds {
 					if b.Dominates(p) {
@@ -234,17 +235,32 @@ func runC10(c *Ctx) {
 						}
 					case *ssa.Store:
 						if fa, ok := x.Addr.(*ssa.FieldAddr); ok {
-							if _, fl := fieldVarOf(fa); sameField(fl, m.linkF) && x.Val == fa.X {
-								selfStore = true
+							if _, fl := fieldVarOf(fa); sameField(fl, m.linkF) {
+								linkStore = true
+								if x.Val == fa.X {
+									selfStore = true
+								}
 							}
 						}
 					}
 				}
 			}
 			switch {
-			case selfStore && hasLoop && f.Signature.Results().Len() == 0:
-				m.inval = f
-			case selfCmp && !selfStore && f.Signature.Results().Len() == 1:
+			case linkStore && f.Signature.Results().Len() == 0:
+				// candidates for the invalidator: entry methods that rewrite links and answer nothing; the one that
+				// looks most like "walk the chain and mark" wins (what it really writes, and whether it walks the
+				// whole chain, is for the rules to judge — a mutant that marks with nil or does not loop is still it)
+				score := 1
+				if hasLoop {
+					score += 2
+				}
+				if selfStore {
+					score += 2
+				}
+				if score > invalScore {
+					m.inval, invalScore = f, score
+				}
+			case selfCmp && !linkStore && f.Signature.Results().Len() == 1:
 				m.checkValid = f
 			}
 		}
